@@ -603,6 +603,10 @@ func (rule *RuleAction) checkAction(meta *ActionMetadata, exec *ExecAction, desc
 	for id, i := range meta.Inputs {
 		if i.Required {
 			if _, ok := exec.Inputs[id]; !ok {
+				// "args" and "entrypoint" in "with" section are parsed as special keys and not stored in Inputs
+				if (id == "args" && exec.Args != nil) || (id == "entrypoint" && exec.Entrypoint != nil) {
+					continue
+				}
 				missing = append(missing, id)
 			}
 		}
